@@ -54,8 +54,9 @@ def main(argv):
         if ok:
             out = "/verif/seeded/" + name
             os.makedirs(out, exist_ok=True)
-            shutil.copy(d + "/patch.diff", out + "/patch.diff")
-            shutil.copy(d + "/demo.py", out + "/demo.py")
+            if os.path.realpath(d) != os.path.realpath(out):
+                shutil.copy(d + "/patch.diff", out + "/patch.diff")
+                shutil.copy(d + "/demo.py", out + "/demo.py")
             json.dump(meta, open(out + "/meta.json", "w"), indent=1)
         print(name, "confirmed" if ok else "NOT-CONFIRMED", meta["confirmed"], "caught_by", meta["caught_by"],
               {p: r["exit"] for p, r in results.items()})
